@@ -1155,3 +1155,7 @@ mod tests {
 		Ok(())
 	}
 }
+
+#[cfg(feature = "verif-hooks")]
+#[path = "biguint_verif_hooks.rs"]
+pub(crate) mod verif_hooks;
